@@ -154,15 +154,35 @@ json_character(EscapeChar) -->
         json_hex(H2),
         json_hex(H3),
         json_hex(H4),
-        { (   nonvar(H1) ->
-              EscapeCharCode is H1 * 16^3 + H2 * 16^2 + H3 * 16 + H4,
-              char_code(EscapeChar, EscapeCharCode)
-          ;   char_code(EscapeChar, EscapeCharCode),
+        (   { nonvar(H1) } ->
+            { CodeUnit is H1 * 16^3 + H2 * 16^2 + H3 * 16 + H4 },
+            json_code_unit_code(CodeUnit, EscapeCharCode),
+            { char_code(EscapeChar, EscapeCharCode) }
+        ;   { char_code(EscapeChar, EscapeCharCode),
               H1 is (EscapeCharCode // 16^3) mod 16,
               H2 is (EscapeCharCode // 16^2) mod 16,
               H3 is (EscapeCharCode // 16^1) mod 16,
-              H4 is (EscapeCharCode // 16^0) mod 16
-          ) }.
+              H4 is (EscapeCharCode // 16^0) mod 16 }
+        ).
+
+/*  A character outside the basic multilingual plane is escaped as a UTF-16 surrogate pair:
+    a high surrogate (D800..DBFF) must be followed by the escape of a low surrogate (DC00..DFFF).
+    A surrogate on its own is not a character. */
+json_code_unit_code(High, Code) -->
+        { High >= 0xD800, High =< 0xDBFF },
+        !,
+        parsing, % pairs are only read: a character is generated as itself
+        "\\u",
+        json_hex(L1),
+        json_hex(L2),
+        json_hex(L3),
+        json_hex(L4),
+        { Low is L1 * 16^3 + L2 * 16^2 + L3 * 16 + L4,
+          Low >= 0xDC00,
+          Low =< 0xDFFF,
+          Code is 0x10000 + (High - 0xD800) * 0x400 + (Low - 0xDC00) }.
+json_code_unit_code(Code, Code) -->
+        { \+ ( Code >= 0xDC00, Code =< 0xDFFF ) }.
 
 json_hex(Digit) --> json_digit(Digit).
 json_hex(10)    --> "a".
